@@ -40,6 +40,19 @@ def main():
         common.run_generic(run, tier)
     except Exception:
         run.engine_error('generic frame obligations crashed: ' + traceback.format_exc()[-1200:].replace('\n', ' | '))
+    if run.undecided and not run.violations and not run.engine_errors:
+        # last resort before reporting "undecided": the generic native history search (bounded refute mode)
+        try:
+            from pyvc.report import native
+            out = native({'kind': 'api_history_case'}, timeout=900)
+            run.bounded.append({'what': 'native API-history search after an undecided run (refute mode only)', 'found': bool(out.get('violates'))})
+            if out.get('violates'):
+                ob = '%s/bounded/api-history' % pid
+                run.add(ob, 'refuted', 'native bounded search', 0, None, out.get('what', '')[:300])
+                run.violation(ob, {'request': {'kind': 'api_history_case'}, 'native': out,
+                                   'solver_output': 'undecided obligations: %s' % [u[0] for u in run.undecided][:10]}, True, what=out.get('what', ''))
+        except Exception:
+            pass
     code = run.finish()
     sys.exit(code)
 
